@@ -196,17 +196,40 @@ class Engine:
     def field_ty(self, field):
         return self.fields[field]
 
-    def harr(self, st, field):
+    # A heap field is (base array Obj -> T, tuple of (object term, value term) writes, oldest
+    # first).  Reads resolve syntactically equal receivers without going through array theory
+    # (measured: nested Store/Select over arrays of arrays made every quantified obligation time out).
+    def hfield(self, st, field):
         if field not in st.heap:
             ty = self.fields[field]
-            st.heap[field] = z3.Const('H0!' + field, z3.ArraySort(ObjS, ty.sort()))
+            st.heap[field] = (z3.Const('H0!' + field, z3.ArraySort(ObjS, ty.sort())), ())
         return st.heap[field]
 
+    def harr(self, st, field):
+        base, writes = self.hfield(st, field)
+        for (o, v) in writes:
+            base = z3.Store(base, o, v)
+        return base
+
     def hread(self, st, field, obj):
-        return z3.Select(self.harr(st, field), obj)
+        base, writes = self.hfield(st, field)
+        expr = z3.Select(base, obj)
+        for (o, v) in writes:
+            if o.eq(obj):
+                expr = v
+            else:
+                expr = z3.If(obj == o, v, expr)
+        return expr
 
     def hwrite(self, st, field, obj, val):
-        st.heap[field] = z3.Store(self.harr(st, field), obj, val)
+        base, writes = self.hfield(st, field)
+        if writes and writes[-1][0].eq(obj):
+            writes = writes[:-1]
+        st.heap[field] = (base, writes + ((obj, val),))
+
+    def hhavoc(self, st, field, tag='Hh'):
+        st.heap[field] = (fresh(tag + '!' + field, z3.ArraySort(ObjS, self.fields[field].sort())),
+                          ())
 
     GHOST_SORTS = {}
 
@@ -287,7 +310,9 @@ class Engine:
     # ------------------------------------------------------------------------------------------
     # truthiness / coercions
 
-    def truth(self, v):
+    def truth(self, v, st=None):
+        if isinstance(v, ViewV) and st is not None:
+            v = self.intr.view_read(self, st, v)
         if isinstance(v, Sym):
             k = v.ty.kind
             if k == 'bool':
@@ -301,7 +326,7 @@ class Engine:
             if k == 'set':
                 return v.t != z3.K(v.ty.args[0].sort(), z3.BoolVal(False))
             if k == 'map':
-                return v.t != z3.K(v.ty.args[0].sort(), v.ty.sort().range().none)
+                return v.t != z3.K(v.ty.args[0].sort(), v.ty.osort().none)
             if k == 'obj':
                 return True
             if k == 'pyv':
@@ -542,7 +567,7 @@ class Engine:
             if isinstance(v, Raise):
                 res.append((st1, v))
                 continue
-            t = self.truth(v)
+            t = self.truth(v, st1)
             for (st2, b) in self.branch(st1, t, 'L%d' % getattr(node, 'lineno', 0)):
                 res.append((st2, b))
         return res
@@ -716,14 +741,32 @@ class Engine:
                 else:
                     raise Unsupported('cannot havoc local %s=%r' % (n, v))
         fields, ghosts = self.intr.modset(self, body_nodes)
+        precise = getattr(self.intr, 'last_precise', {})
         if spec is not None:
             for m in spec.modifies_extra:
                 if m.startswith('g:'):
                     ghosts.add(m[2:])
                 else:
                     fields.add(m)
+                    precise.pop(m, None)
         for f in fields:
-            st.heap[f] = fresh('Hl!' + f, z3.ArraySort(ObjS, self.fields[f].sort()))
+            recvs = precise.get(f)
+            objs = []
+            if recvs:
+                for rn in recvs:
+                    v = st.env.get(rn)
+                    if isinstance(v, Sym) and v.ty.kind == 'obj' and rn not in names:
+                        objs.append(v.t)
+                    else:
+                        objs = None
+                        break
+            if objs:
+                # only the objects the loop body writes are havocked; every other object keeps
+                # its field value (frame of the loop)
+                for o in objs:
+                    self.hwrite(st, f, o, fresh('Hl!' + f, self.fields[f].sort()))
+            else:
+                self.hhavoc(st, f, 'Hl')
         for g in ghosts:
             st.g[g] = fresh('Gl!' + g, self.GHOST_SORTS[g])
 
@@ -941,7 +984,7 @@ class Engine:
                     if last:
                         outs.append((s1, v))
                         continue
-                    t = self.truth(v)
+                    t = self.truth(v, s1)
                     for (s2, b) in self.branch(s1, t, 'B%d' % getattr(sub, 'lineno', 0)):
                         if b == is_and:
                             nxt.append((s2, None))        # continue evaluating
@@ -957,7 +1000,7 @@ class Engine:
             if isinstance(v, Raise):
                 outs.append((s1, v))
             elif isinstance(node.op, ast.Not):
-                t = self.truth(v)
+                t = self.truth(v, s1)
                 outs.append((s1, (not t) if isinstance(t, bool) else Sym(z3.Not(t), BOOL)))
             elif isinstance(node.op, ast.USub):
                 if isinstance(v, Sym) and v.ty.kind == 'int':
@@ -1278,7 +1321,7 @@ class Engine:
                     if m.startswith('g:'):
                         s1.g[m[2:]] = fresh('Gc!' + m[2:], self.GHOST_SORTS[m[2:]])
                     else:
-                        s1.heap[m] = fresh('Hc!' + m, z3.ArraySort(ObjS, self.fields[m].sort()))
+                        self.hhavoc(s1, m, 'Hc')
                 else:
                     field, obj = m
                     val = fresh('Hv!' + field, self.fields[field].sort())
@@ -1419,20 +1462,26 @@ class Engine:
                         self.oblige(s2, f, 'exc-post', '%s.%s' % (es.cls, label), props=props)
             else:
                 raise Unsupported('loop control escaping function')
-            # frame
+            # frame: every object written on this path, other than those the contract lists,
+            # has its entry value; a wholesale havoc of a field is allowed only if listed
             for field in list(s1.heap.keys()):
                 if field in mod_fields_all:
                     continue
-                h0 = self.harr(entry, field)
-                h1 = s1.heap[field]
-                if h0.eq(h1):
-                    continue
-                objs = mod_objs.get(field, [])
-                lhs = h1
-                rhs = h0
-                for o in objs:
-                    rhs = z3.Store(rhs, o, z3.Select(h1, o))
-                self.oblige(s1, lhs == rhs, 'frame', field)
+                base1, writes1 = s1.heap[field]
+                base0, writes0 = self.hfield(entry, field)
+                allowed = mod_objs.get(field, [])
+                if not base1.eq(base0):
+                    self.oblige(s1, base1 == base0, 'frame', field + '.all-objects')
+                seen_o = []
+                for (o, v) in writes1:
+                    if any(o.eq(a) for a in allowed) or any(o.eq(x) for x in seen_o):
+                        continue
+                    seen_o.append(o)
+                    cur, ent = self.hread(s1, field, o), self.hread(entry, field, o)
+                    if cur.eq(ent):
+                        continue
+                    notallowed = z3.And([o != a for a in allowed]) if allowed else z3.BoolVal(True)
+                    self.oblige(s1, z3.Implies(notallowed, cur == ent), 'frame', field)
             for gname in list(s1.g.keys()):
                 if gname in mod_ghost:
                     continue
